@@ -68,7 +68,7 @@ class Check:
         self.parts.append(summary)
         return results
 
-    def run_random(self, aspects, n_quick=25, n_thorough=250):
+    def run_random(self, aspects, n_quick=36, n_thorough=300):
         """second line of defence: generated programs over the whole feature set, weighted towards this property's constructs"""
         from families import randprog
         n = n_quick if self.tier == 'quick' else n_thorough
